@@ -31,14 +31,25 @@ TRACKER_ASSUME = [
 TRACKER_MODELLED = ["processors/auditd/sessiontracker/sessiontracker.go (RemoteLogin, AuditdEvent, both cleanups, writeAndClearCache)"]
 
 
+def daemon_extra(pid, n_quick=40, n_thorough=400):
+    """End-to-end stage: the BUILT daemon on two real FIFOs, the property's oracle on its output file."""
+    return [("daemon", {}, ["-prop", pid, "-n", str(n_thorough)], False, ["-prop", pid, "-n", str(n_quick)])]
+
+
+DAEMON_ASSUME = ("end-to-end stage: the built binary is fed through two real FIFOs (sshd lines and raw audit records, random timing, "
+                 "writes split at arbitrary byte offsets); the property's oracle is evaluated on the events file; completeness is "
+                 "established by a sentinel session written last (both pipelines are sequential)")
+
+
 def tracker(pid, n_quick=160, n_thorough=3000):
+    extra = daemon_extra(pid) if pid in ("C01", "C02", "C04") else []
     reg(Spec(
         pid, "Props/%s.v" % pid, harness="tracker", overlay=TRACKER_OVERLAY,
         args_quick=["-prop", pid, "-n", str(n_quick)],
         args_thorough=["-prop", pid, "-n", str(n_thorough)],
         args_search=["-prop", pid, "-n", "1500"],
-        assumptions=TRACKER_ASSUME, modelled=TRACKER_MODELLED,
-        extra_targets=["Model/TrackerCheck.vo"],
+        assumptions=TRACKER_ASSUME + ([DAEMON_ASSUME] if extra else []), modelled=TRACKER_MODELLED,
+        extra_targets=["Model/TrackerCheck.vo"], thorough_extra=extra,
     ))
 
 
@@ -56,13 +67,14 @@ SSHD_MODELLED = ["processors/sshd handlers (capture-to-field mapping, placeholde
 
 
 def sshd(pid, n_quick=360, n_thorough=6000):
+    extra = daemon_extra(pid) if pid == "C07" else []
     reg(Spec(
         pid, "Props/%s.v" % pid, harness="sshd",
         args_quick=["-prop", pid, "-n", str(n_quick)],
         args_thorough=["-prop", pid, "-n", str(n_thorough)],
         args_search=["-prop", pid, "-n", "3000"],
-        assumptions=SSHD_ASSUME, modelled=SSHD_MODELLED,
-        extra_targets=["Model/SshdCheck.vo"],
+        assumptions=SSHD_ASSUME + ([DAEMON_ASSUME] if extra else []), modelled=SSHD_MODELLED,
+        extra_targets=["Model/SshdCheck.vo"], thorough_extra=extra,
     ))
 
 
@@ -117,7 +129,7 @@ reg(Spec(
 sshd("C06")
 
 reg(Spec(
-    "C10", "Props/C10.v", harness="pipeline", race=True,
+    "C10", "Props/C10.v", harness="pipeline", race=True, thorough_extra=daemon_extra("C10", 60, 600),
     args_quick=["-n", "60"],
     args_thorough=["-n", "1500"],
     args_search=["-n", "400"],
@@ -125,6 +137,7 @@ reg(Spec(
         "A-append: one Write call per event and no interleaving of single writes on the O_APPEND output file (kernel/encoding-json behaviour): observed by recording every Write call, not proved",
         "the hand-off happens only after the UserLogin was written (wf_run): this is C05's theorem about the sshd processor",
         "correlator calls are atomic (C03); the tracker component of a pipeline run is the sequential correlator on the run's own history",
+        DAEMON_ASSUME,
     ],
     modelled=["cmd/namedpipe.go wiring (one event writer, unbuffered logins channel)", "order of write and hand-off in processors/sshd", "sessiontracker (shared model)"],
 ))
